@@ -32,7 +32,7 @@ ALPHABET = "extent kind x sectors x access x file name; storage type x order"
 BOUND = {"quick": "<= 3 extents / storages, buffers {512, 8192}", "thorough": "same, 4 buffers, all access/name combinations"}
 EXPECT_OUTCOMES = ["vmdk-descriptor", "vmdk-handles", "hdd-storages"]
 
-KINDS = ["FLAT", "VMFS", "SPARSE", "VMFSSPARSE", "SESPARSE"]
+KINDS = ["FLAT", "VMFS", "SPARSE", "VMFSSPARSE", "SESPARSE", "ZERO"]  # ZERO: no backing file, its range reads as zeros
 SIZES = [16, 24, 40, 4104, 20]  # 20: not a multiple of the grain size, what follows starts inside a grain-sized unit
 NAMES = ["plain", "with space", 'in"ner', "ünï-cödé", "emoji-\U0001F4BE", "size=small & id#4"]
 # characters that are ordinary in POSIX file names but special to some text routine (str.splitlines, str.strip, ...)
@@ -161,6 +161,8 @@ def _extent_image(kind, sectors, layer, rot=0, nested=None):
         return img, RawDisk(data)
     if kind in ("FLAT", "VMFS", "raw"):
         return B.build_flat(sectors, layer, slack_sectors=9), B.model_flat(sectors, layer)
+    if kind == "ZERO":
+        return None, RawDisk(bytes(sectors * 512))
     grain = 8
     n = (sectors + grain - 1) // grain
     # the allocation pattern is rotated per extent: neighbouring extents never have the same tables at the same place
@@ -266,7 +268,10 @@ def _case_vmdk(case, ctx, d, buf):
                     shifted.put_pattern(off + start * 512, ln, pl[0], pl[1])
             img = shifted
         fn = f"{name}-{'flat' if kind in ('FLAT', 'VMFS') else 's%03d' % (xi + 1)}.vmdk"
-        img.write_to(os.path.join(d, fn))
+        if kind == "ZERO":
+            fn = None  # `RW 16 ZERO`: the line names no file
+        else:
+            img.write_to(os.path.join(d, fn))
         lines.append((access, sectors, kind, fn, (start if kind == "FLAT" else None)))
         parts.append(m)
         pos += sectors
@@ -286,6 +291,8 @@ def _case_vmdk(case, ctx, d, buf):
     decoy = os.path.join(d, "cwd-with-lookalikes")
     os.makedirs(decoy, exist_ok=True)
     for ln in lines:
+        if ln[3] is None:
+            continue
         with open(os.path.join(decoy, ln[3]), "wb") as f:
             f.write(b"LOOKALIKE" * 57)
     cwd = os.getcwd()
